@@ -46,9 +46,24 @@ def make_inputs(params):
 	A, L, n, ns = params["A"], params["L"], params["n"], params["n_shuffles"]
 	X = dls.random_onehot(r, n, A, L)
 	refs = None
+	kind = params.get("refkind", "onehot")
 	if params["refs"] == "given":
 		refs = dls.random_onehot(r, n * ns, A, L).reshape(n, ns, A, L)
-		if params.get("near"):
+		# "any reference set": references need not be one-hot
+		if kind == "zeros":
+			refs = torch.zeros_like(refs)
+		elif kind == "uniform":
+			refs = torch.full_like(refs, 1.0 / A)
+		elif kind == "soft":
+			g = torch.Generator().manual_seed(params["iseed"])
+			refs = torch.softmax(torch.randn(refs.shape, generator=g,
+				dtype=torch.float64) * 2, dim=2)
+		elif kind == "onehotN":
+			for i in range(n):
+				for j in range(ns):
+					z = torch.tensor([r.random() < 0.3 for _ in range(L)])
+					refs[i, j][:, z] = 0
+		if params.get("near") and kind in ("onehot", "onehotN"):
 			# references that coincide with x at most positions (many units
 			# with delta_in exactly 0)
 			for i in range(n):
@@ -72,6 +87,8 @@ def run_case(cls, params, rec):
 	has_nl = has_mp or any(s["t"] == "act" for s in spec)
 	if has_mp:
 		rec.count("archs_with_maxpool")
+	rec.setadd("reference_kinds", params["refs"] + ":" + params.get(
+		"refkind", "onehot") if params["refs"] == "given" else params["refs"])
 	rec.setadd("activations_seen", ",".join(sorted({s["name"] for s in spec
 		if s["t"] == "act"})) or "-", cap=400)
 	for s in spec:
@@ -221,6 +238,8 @@ def gen_case(seed, k):
 		"n_shuffles": ns, "batch_size": r.choice([1, 2, 3, n * ns,
 		n * ns + 1, 32]), "target": r.randrange(dls.n_targets(spec)),
 		"refs": refs, "near": r.random() < 0.4, "iseed": r.randrange(10 ** 6),
+		"refkind": r.choice(["onehot", "onehot", "onehot", "zeros",
+		"uniform", "soft", "onehotN"]),
 		"random_state": r.randrange(1000)}
 
 
